@@ -267,17 +267,28 @@ def _u10_iteration_function(
 
     wind = (u10, wind_guess[1], wind_guess[2])
 
-    # Estimate the rougness length
-    roughness_length = _roughness_estimate_point(
-        memory_list[0],
-        variance_density,
-        wind,
-        depth,
-        wind_source_term_function,
-        tail_stress_parametrization_function,
-        spectral_grid,
-        parameters,
-    )
+    # Estimate the rougness length. For some trial winds (e.g. after an overshoot of
+    # the root finder) no roughness solution exists; signal this to the root finder
+    # with a NaN - so that it can retreat - instead of aborting the whole inversion.
+    try:
+        roughness_length = _roughness_estimate_point(
+            memory_list[0],
+            variance_density,
+            wind,
+            depth,
+            wind_source_term_function,
+            tail_stress_parametrization_function,
+            spectral_grid,
+            parameters,
+        )
+    except:
+        roughness_length = np.nan
+
+    if np.isnan(roughness_length):
+        # restart from the default first guess on the next evaluation.
+        memory_list[0] = -1.0
+        return np.nan
+
     memory_list[0] = roughness_length
 
     # Calculate the wind input source term values
